@@ -85,6 +85,10 @@ type Behaviour struct {
 	// Cfg: the operator's configuration in force while the behaviour runs (copied into every subscriber context at its
 	// creation): volume limits, quota validity time, threshold rate as Th/1024 (a dyadic rational, exact in float32)
 	Cfg *OpCfg `json:"cfg"`
+	// Scale: the unit of money of the replay: balances, unit costs and top-ups of the behaviour are multiplied by it before
+	// they are stored, and what is observed (balance, reservation, unit cost) is divided by it again (0 = 1).  With 2^20 a
+	// request of 4096 units prices at 2^32 units of money: beyond the 32-bit AVPs
+	Scale int64 `json:"scale"`
 }
 
 type OpCfg struct {
@@ -102,6 +106,25 @@ type SeqDriver struct {
 }
 
 func (d *SeqDriver) supi(u string) string { return SupiOf(d.Prefix, u) }
+
+func (d *SeqDriver) scale(b *Behaviour) int64 {
+	if b.Scale > 1 {
+		return b.Scale
+	}
+	return 1
+}
+
+// unscale turns an observed amount of money into the behaviour's unit; an amount that is not a multiple of the unit is
+// reported as a sentinel no model value equals
+func unscale(v, scale int64) int64 {
+	if scale <= 1 {
+		return clamp31(v)
+	}
+	if v%scale != 0 {
+		return -2147483646
+	}
+	return clamp31(v / scale)
+}
 
 // SupiOf renders a model subscriber token as a SUPI of this worker.  A token that starts with "0" stands for an IMSI with
 // leading zeros (MCC 001 is the test network): "0x" is "00" + prefix + "x", whose zero-stripped form is the SUPI of token "x".
@@ -185,7 +208,11 @@ func (d *SeqDriver) runOne(b *Behaviour) {
 		}
 	}()
 	for _, a := range b.Accts {
-		env.PutAccount(d.supi(a.U), rgNum(a.Rg), strconv.FormatInt(a.Quota, 10), a.Cost)
+		cost := a.Cost
+		if cn, err := strconv.ParseInt(a.Cost, 10, 64); err == nil && b.Scale > 1 {
+			cost = strconv.FormatInt(cn*b.Scale, 10)
+		}
+		env.PutAccount(d.supi(a.U), rgNum(a.Rg), strconv.FormatInt(a.Quota*d.scale(b), 10), cost)
 	}
 	supis := map[string]string{}
 	subs := map[string]string{}
@@ -216,7 +243,7 @@ func (d *SeqDriver) runOne(b *Behaviour) {
 			q, _, ok := env.GetAccount(d.supi(st.U), rgNum(st.Rg))
 			if ok {
 				qi, _ := strconv.ParseInt(q, 10, 64)
-				env.SetQuota(d.supi(st.U), rgNum(st.Rg), strconv.FormatInt(qi+st.Amt, 10))
+				env.SetQuota(d.supi(st.U), rgNum(st.Rg), strconv.FormatInt(qi+st.Amt*d.scale(b), 10))
 			}
 			args["rg"] = st.Rg
 			args["amt"] = st.Amt
@@ -550,7 +577,10 @@ func (d *SeqDriver) project(b *Behaviour) map[string]any {
 	st := map[string]any{"lrsn": clamp31(int64(self.LocalRecordSequenceNumber))}
 	oc := factory.ChfConfig.Configuration
 	st["cfg"] = map[string]any{"vl": oc.VolumeLimit, "vlp": oc.VolumeLimitPDU, "qvt": oc.QuotaValidityTime,
-		"th": clamp31(int64(oc.VolumeThresholdRate * 1024))}
+		"th": clamp31(int64(oc.VolumeThresholdRate * 1024)), "mqcap": int64(0)}
+	if sc := d.scale(b); sc > 1 {
+		st["cfg"].(map[string]any)["mqcap"] = (int64(1) << 32) / sc
+	}
 	acct := map[string]any{}
 	for _, a := range b.Accts {
 		q, c, ok := d.Env.GetAccount(d.supi(a.U), rgNum(a.Rg))
@@ -559,8 +589,11 @@ func (d *SeqDriver) project(b *Behaviour) map[string]any {
 			cn, cerr := strconv.Atoi(c)
 			if cerr != nil || cn <= 0 {
 				cn = -1
+			} else if sc := d.scale(b); sc > 1 {
+				cn = int(unscale(int64(cn), sc))
+				c = strconv.Itoa(cn)
 			}
-			acct[a.U+"|"+a.Rg] = map[string]any{"u": a.U, "g": a.Rg, "quota": clamp31(qi), "cost": c, "costn": cn, "num": err == nil}
+			acct[a.U+"|"+a.Rg] = map[string]any{"u": a.U, "g": a.Rg, "quota": unscale(qi, d.scale(b)), "cost": c, "costn": cn, "num": err == nil}
 		}
 	}
 	st["acct"] = acct
@@ -574,8 +607,8 @@ func (d *SeqDriver) project(b *Behaviour) map[string]any {
 		rgs := map[string]any{}
 		for rg, t := range ue.RatingType {
 			rgs[strconv.Itoa(int(rg))] = map[string]any{
-				"rtype": rtypeName(t), "reserved": clamp31(ue.ReservedQuota[rg]),
-				"ucost": clamp31(int64(ue.UnitCost[rg])), "reqnum": clamp31(int64(ue.AcctRequestNum[rg])),
+				"rtype": rtypeName(t), "reserved": unscale(ue.ReservedQuota[rg], d.scale(b)),
+				"ucost": unscale(int64(ue.UnitCost[rg]), d.scale(b)), "reqnum": clamp31(int64(ue.AcctRequestNum[rg])),
 			}
 		}
 		idx := map[*cdrType.CHFRecord]int{}
